@@ -117,6 +117,20 @@ impl NamespaceStates {
         state.finish(origin, result)
     }
 
+    /// Our sync request was declined because the remote node is already syncing with us.
+    ///
+    /// Usually the remote's own request takes over our slot (see [`Self::accept_request`]). If it
+    /// did not, because it was lost or because the remote was still finishing an earlier exchange,
+    /// the slot would stay in the running state forever: free it.
+    ///
+    /// Returns `true` if another sync request should be triggered right afterwards.
+    pub fn connect_declined(&mut self, namespace: &NamespaceId, node: EndpointId) -> bool {
+        match self.entry(namespace, node) {
+            Some(state) => state.connect_declined(),
+            None => false,
+        }
+    }
+
     /// Set whether a [`super::live::Event::PendingContentReady`] may be emitted once the pending queue
     /// becomes empty.
     ///
@@ -191,6 +205,20 @@ impl PeerState {
         self.last_sync = Some((Instant::now(), result));
         self.state = SyncState::Idle;
         start.map(|s| (s, self.resync_requested))
+    }
+
+    fn connect_declined(&mut self) -> bool {
+        match self.state {
+            SyncState::Running {
+                origin: Origin::Connect(_),
+                ..
+            } => {
+                self.state = SyncState::Idle;
+                self.resync_requested
+            }
+            // An accepted request of the remote node took over the slot, or it is idle already.
+            _ => false,
+        }
     }
 
     fn start_connect(&mut self, reason: SyncReason) -> bool {
